@@ -159,13 +159,16 @@ static void limit_case(Ctx& c, uint64_t index) {
     } else {
       // strings at max-1, max, max+1 through set(), as key, and through both deserializers
       if (kMaxStringLength > (1u << 20)) { c.outcome("string-limit-out-of-reach"); return; }
-      long d = (long)r.range(-2, 3);
+      long d = (long)r.range(-2, 6);
       size_t n = (size_t)((long)kMaxStringLength + d);
       std::string s(n, 'x'); for (size_t i = 0; i < n; i += 7) s[i] = (char)('a' + i % 26);
       bool fits = n <= kMaxStringLength;
       wit = "string of " + std::to_string(n) + " bytes, limit " + std::to_string(kMaxStringLength);
       unsigned how = (unsigned)r.below(5);
       doc["keep"] = 42;
+      // a string already in the document that equals the over-long one cut at (length mod 2^bits): a length that wraps must not alias it
+      std::string twin; bool has_twin = !fits && r.coin();
+      if (has_twin) { twin = s.substr(0, n - (kMaxStringLength + 1)); doc["twin"] = twin; wit += ", stored twin of " + std::to_string(twin.size()) + " bytes"; }
       bool ok = false; std::string got;
       auto readback = [&]() { AJ::JsonString js = doc["s"].as<AJ::JsonString>(); return js.isNull() ? std::string() : std::string(js.c_str(), js.size()); };
       if (how == 0) { ok = doc["s"].set(s); got = readback(); wit += ", set(std::string)"; }
@@ -181,6 +184,8 @@ static void limit_case(Ctx& c, uint64_t index) {
         if (!got.empty() && got != s && how != 4) c.violation("document-corrupted-at-limit", "a truncated / wrapped string was stored (" + std::to_string(got.size()) + " bytes)", wit);
       }
       if (doc["keep"] != 42) c.violation("document-corrupted-at-limit", "an unrelated member changed", wit);
+      if (has_twin && doc["twin"].as<std::string>() != twin) c.violation("document-corrupted-at-limit", "the stored shorter string changed", wit);
+      if (has_twin && how == 1 && doc.as<AJ::JsonObjectConst>().size() != 2) c.violation("limit-not-enforced", "an over-long key was added under a wrapped length (object has " + std::to_string(doc.as<AJ::JsonObjectConst>().size()) + " members)", wit);
       Inspector::Snap sn = Inspector::inspect(doc, true);
       if (!sn.ok) c.violation("structure-at-limit", sn.error, wit);
       c.count("limit_fills"); c.outcome(fits ? "string-within-limit" : "string-above-limit");
